@@ -812,6 +812,45 @@ def rule_args_blanks(model):
     return r
 
 
+EPFS_AT_LEAST = (
+    # a name, white space of any kind (blank, tab, line ends, form feed),
+    # unquoted / quoted arguments, a conversion or a block marker: what the
+    # SGML readers accept between a tag name and its arguments
+    r'%\([a-z]+[ \t\n\r\f\v]+[a-z]+(=[a-z0-9]+|="[a-z ]*")?'
+    r'([ \t\n]+[a-z]+)?\)(s|d|\[|\])')
+
+
+def rule_epfs_lower(model):
+    r = RuleResult('C07.R10', 'the %(...) reader recognises a tag whatever '
+                   'white space separates the name from its arguments '
+                   '(blank, tab, line end), like the two SGML readers: the '
+                   'language of the EPFS tag pattern includes the reference '
+                   'family name + white space + arguments + suffix')
+    from .. import regexa
+    tg = model.func('DT_String', 'String.tagre')
+    rx = model.returned_regex(tg)
+    if rx is None:
+        raise AnalysisError('String.tagre pattern not found')
+    pat, flags, call = rx
+    try:
+        inc, wit = regexa.included(EPFS_AT_LEAST, pat, 0, flags)
+    except regexa.Unsupported as e:
+        raise AnalysisError(f'C07.R10: {e}')
+    r.instance(tg.where, repr(pat)[:120], 'recognises the reference family'
+               if inc else f'does not recognise {wit!r}')
+    if not inc:
+        r.finding(tg.where, 'EPFS tag language (lower bound)', 'the EPFS '
+                  f'tag pattern does not match {wit!r} as a tag: it stays '
+                  'literal text (and its end tag is then unexpected) while '
+                  'the same tag with the same white space compiles in the '
+                  'two SGML syntaxes', node=call, ctx=tg)
+    ctl, _ = regexa.included(EPFS_AT_LEAST, r'%\([a-z]+( [^)]*)?\)[a-z\[\]]',
+                             0, 0)
+    r.control('control: a blank-only separator misses tab / newline',
+              not ctl)
+    return r
+
+
 def rule_one_table(model):
     r = RuleResult('C07.R9', 'the three syntaxes compile with one command '
                    'table: `commands` is defined once, on the base template '
@@ -869,7 +908,7 @@ def rule_one_table(model):
 
 RULES = [rule_overrides, rule_siblings, rule_groups, rule_entity,
          rule_widths, rule_scanner_twins, rule_epfs_language,
-         rule_args_blanks, rule_one_table]
+         rule_args_blanks, rule_one_table, rule_epfs_lower]
 EXPLANATION = (
     'Override-set query on the template class hierarchy; comparison of the '
     'normalised decisions (returns, raises, tests) of the two parseTag '
